@@ -388,6 +388,35 @@ def gen_C08(tier, seed):
         p.frame(lf, 'FR', [ix, ch])
         p.write(1, route='none' if route == 'inline' else route, data_arrays=arrs)
         progs.append(p.build())
+    # namesakes: two channels of one name in one logical file (copy numbers 0 and 1, their own data sets), in two frames or one of
+    # them in no frame, with different casts - every frame's records follow the descriptors of its own channels
+    for v in range(6 if tier == 'quick' else 24):
+        p = Prog(f'C08-namesakes-{v}', {'kind': 'namesakes'})
+        lf, _ = base_lf(p, vrl=rng.choice([128, 8192]))
+        route = ['inline', 'dict', 'h5'][v % 3]
+        casts = [('float32', None), (None, 'float32'), ('int16', 'float64'), ('float64', 'int32'), ('uint8', None), (None, 'int16')][v % 6]
+        a1 = ((np.arange(5) * 7 + v) % 60).astype('float64')
+        a2 = ((np.arange(10).reshape(5, 2) * 3 + v) % 60).astype('float64')
+        d = np.arange(5, dtype='float64')
+        kw1 = {'cast': casts[0]} if casts[0] else {}
+        kw2 = {'cast': casts[1]} if casts[1] else {}
+        if route == 'inline':
+            ix1, ix2 = p.channel(lf, 'IX1', data=d), p.channel(lf, 'IX2', data=d)
+            c1 = p.channel(lf, 'SAME', data=a1, dataset_name='first', **kw1)
+            c2 = p.channel(lf, 'SAME', data=a2, dataset_name='second', **kw2)
+            arrs = {}
+        else:
+            ix1, ix2 = p.channel(lf, 'IX1'), p.channel(lf, 'IX2')
+            c1 = p.channel(lf, 'SAME', dataset_name='first', **kw1)
+            c2 = p.channel(lf, 'SAME', dataset_name='second', **kw2)
+            arrs = {ix1: p.array(d), ix2: p.array(d), c1: p.array(a1), c2: p.array(a2)}
+        p.frame(lf, 'MAIN', [ix1, c1])
+        if v % 4 != 3:
+            p.frame(lf, 'SLOW', [ix2, c2])
+        else:
+            p.frame(lf, 'SLOW', [ix2])          # the second namesake is in no frame
+        p.write(1, route='none' if route == 'inline' else route, data_arrays=arrs)
+        progs.append(p.build())
     # cast dtype, DIMENSION and ELEMENT-LIMIT all given by the user, the dimension wrong for the data: refused, or consistent
     for v, (shape, dim, lim, cast) in enumerate([((4, 4), [5], [5], 'float32'), ((4,), [3], [3], 'float64'), ((4, 2), [2], [2], 'float32'),
                                                  ((4, 3), [3], [8], 'int32'), ((4, 3), [2], [4], 'float64'), ((4, 1), [1], [1], 'uint8')]):
@@ -592,10 +621,29 @@ def gen_C05(tier, seed):
     for i in range(n):
         progs.append(all_classes_file('C05', i, rng, rng.choice(['all', 'random', 'alternating']), None,
                                       per_class=rng.choice([1, 2])).build())
+    # naive date-times in a process whose local zone observes daylight saving time: summer and winter wall-clock times, the last hour
+    # of a month / year, by every assignment route (keyword, dict, AttrSetup, later .value), date-time objects and strings
+    for i, zone in enumerate(['CET-1CEST,M3.5.0,M10.5.0/3', 'EST5EDT,M3.2.0,M11.1.0', 'AEST-10AEDT,M10.1.0,M4.1.0/3']):
+        for j, (mo, d, h) in enumerate([(7, 15, 12), (1, 15, 12), (7, 31, 23), (12, 31, 23), (6, 30, 0)]):
+            if tier == 'quick' and (i + j) % 2:
+                continue
+            p = Prog(f'C05-dst-{i}-{j}', {'kind': 'dst', 'zone': zone})
+            p.tz = zone
+            lf, o = base_lf(p)
+            when = DT(2021, mo, d, h, 30 if h else 10, 5, 250000 if j % 2 else 0, tzmin=None)
+            routes = [when, DICT(when), SETUP(when)]
+            p.add(lf, 'origin', f'SECOND', file_set_number=I(2), creation_time=routes[j % 3])
+            p.add(lf, 'zone', 'WHEN', domain=S('TIME'), maximum=when, minimum=DT(2021, mo, d, h, 5, 0, 0, tzmin=None))
+            msg = p.add(lf, 'message', 'MSG', time=SETUP(DT(2021, mo, d, h, 45, 0, 0, tzmin=None)))
+            cal = p.add(lf, 'calibration_measurement', 'CM')
+            p.set(cal, 'begin_time', when)
+            p.frame(lf, 'FR', [p.channel(lf, 'CH', data=np.arange(3, dtype='float64'))])
+            p.write(1)
+            progs.append(p.build())
     # assignment routes: keyword, dict, AttrSetup, later .value / .units
     for i in range(25 if tier == 'quick' else 300):
         p = Prog(f'C05-routes-{i}', {'kind': 'routes'})
-        p.tz = rng.choice(['UTC0', 'AAA-05:30', 'BBB+11'])
+        p.tz = rng.choice(['UTC0', 'AAA-05:30', 'BBB+11', 'CET-1CEST,M3.5.0,M10.5.0/3', 'EST5EDT,M3.2.0,M11.1.0'])
         lf, o = base_lf(p)
         refs = {'ORIGIN': [o]}
         cls = rng.choice(['equipment', 'axis', 'well_reference_point', 'path', 'message', 'calibration_coefficient'])
@@ -978,6 +1026,34 @@ def foreign_reference_programs(pid):
         else:
             p.add(l1, cls, 'FOREIGN', set_name=s1, **{attr: val})
         p.write(1, valid=False, either=True)
+        progs.append(p.build())
+    # the same with the target in another DLISFile of the process (default set names: the referencing logical file has a set of the
+    # target's type and name of its own, holding an object of its own)
+    for i, (cls, attr, tcls) in enumerate(foreign):
+        p = Prog(f'{pid}-foreign-otherfile-{i}', {'kind': 'foreign', 'fringe': True, 'cls': cls, 'attr': attr, 'otherfile': True})
+        made = []
+        for n in (1, 2):
+            p.file(n)
+            lf = p.lf(n, lf=n, fh_id=f'FILE{n}')
+            p.origin(lf, name=f'O{n}', fsn=n)
+            c = p.channel(lf, f'CH{n}', data=np.arange(3, dtype='float64'))
+            fr = p.frame(lf, f'FR{n}', [c])
+            own = None if tcls in ('channel', 'frame') else p.add(lf, tcls, 'TARGET' if n == 2 else 'OWN')
+            made.append((lf, c, fr, own))
+        (l1, c1, f1, o1), (l2, c2, f2, o2) = made
+        tgt = {'channel': c2, 'frame': f2}.get(tcls, o2)
+        single = attr in ('output_channel', 'frame_type', 'source', 'measurement_source', 'long_name')
+        val = R(tgt) if single else L(R(tgt))
+        if cls == 'frame':
+            extra = p.channel(l1, 'EXTRA', data=np.arange(3, dtype='float64'))
+            p.frame(l1, 'FOREIGN', [extra, tgt])
+        elif cls == 'channel':
+            ch = p.channel(l1, 'FOREIGN', data=np.arange(3, dtype='float64'), **{attr: val})
+            p.frame(l1, 'FRX', [ch])
+        else:
+            p.add(l1, cls, 'FOREIGN', **{attr: val})
+        p.write(1, valid=False, either=True)
+        p.write(2)
         progs.append(p.build())
     return progs
 
